@@ -6,9 +6,9 @@ from c01 import U, EPS, in_normal, NORMAL_MIN
 
 PID = "C03"
 MODEL_TARGETS = ["Proofs/Eval.vo", "Amount/F64.vo", "Amount/Dec.vo", "Gen/Catalogue.vo"]
-PROOF_TARGETS = ["Props/C03.vo", "Pinned/C03.vo", "Props/Accuracy.vo", "Pinned/Accuracy.vo"]
-PROPS = ["Props/C03.v", "Props/Accuracy.v"]
-COQCHK = ["QV.Props.C03", "QV.Props.Accuracy"]
+PROOF_TARGETS = ["Props/C03.vo", "Pinned/C03.vo", "Props/Accuracy.vo", "Pinned/Accuracy.vo", "Props/AccuracyDec.vo", "Pinned/AccuracyDec.vo"]
+PROPS = ["Props/C03.v", "Props/Accuracy.v", "Props/AccuracyDec.v"]
+COQCHK = ["QV.Props.C03", "QV.Props.Accuracy", "QV.Props.AccuracyDec"]
 TRUSTED_BASE = [
     "Coq 8.16.1 kernel (coqc); coqchk in the thorough tier",
     "translator rs2j+j2v: HasRefUnit::add/sub/div/equiv_amount, LinearScaledUnit::ratio and the generated Add/Sub/Div<Self> forwarding impls are translated from the current source (Gen/Kernels.v)",
@@ -17,7 +17,7 @@ TRUSTED_BASE = [
 ]
 LEVEL = ("Coq theorems (Props/C03.v), generic in amount type and instance: a+b, a-b, a/b use the left amount as is and the right operand converted to the left unit (operand order kept), results of + and - carry the left unit, "
          "equal units give exactly the amount type's own operation, and the generated operators of every reference-unit type are these kernels. Re-translated from source on every run. "
-         "Magnitudes are additionally judged on the implementation for ALL ordered unit pairs with exact rationals (testing, supporting). In the binary floating-point configuration the magnitude equations with explicit rounding factors are theorems (ACC_C03_add/sub/ratio in Props/Accuracy.v); the decimal bounds are judged by the oracle.")
+         "Magnitudes are additionally judged on the implementation for ALL ordered unit pairs with exact rationals (testing, supporting). In the binary floating-point configuration the magnitude equations with explicit rounding factors are theorems (ACC_C03_add/sub/ratio in Props/Accuracy.v); in the decimal configuration (Props/AccuracyDec.v) the sum and difference are exact apart from the conversion of the right operand (error <= 5e-19 (|b|+1)|s_u|), and the ratio is within 5e-19 of a / b' (DEC_C03_add/sub/div).")
 LEVEL_NOTE = "Trusted: Coq kernel, translator rs2j+j2v, Macro/Inst.v wiring (cross-checked), hand models of binary64/fpdec in the correspondence; no axioms in the structural theorems; the accuracy theorems rest on Flocq and the stdlib real-number axioms."
 ASSUMPTIONS = [
     "Rust evaluates `self.amount() + rhs.equiv_amount(self.unit())` as the translated term (validated by the correspondence run)",
